@@ -33,8 +33,8 @@ Command-level theorems (all on the definitions the driver runs; `D` = database a
  (8) `c01_commands_preserve_wf` — every command of the table keeps keys unique.
  (9) `C01.step_refines`, `C01.c01_refines`, `C01_holds`.
 
-Not proved here: uniqueness of the KEYS answer among sorted duplicate-free lists (the reference fixes membership and multiplicity;
-that `sortBytes` yields an ordered list is not shown); programs whose clock goes backwards (an entry the model has lazily deleted
+Uniqueness of the KEYS answer among sorted duplicate-free lists is proved in `Props/C01Keys.lean` (`keys_reply_unique`,
+`specKeys_deterministic`).  Not proved here: programs whose clock goes backwards (an entry the model has lazily deleted
 would reappear in the reference keyspace); the tie of `Exec.exec`'s name lookup (lower-casing, other families' tables) to `Op`.
 Non-vacuity examples are at the end of the file. -/
 namespace Exec
